@@ -5,7 +5,7 @@
    Spec/CrcSpec.v instantiated with the catalogue parameters regenerated from the Rust source.
    Statements only (proofs: Proofs/SpecProofs.v). *)
 From BP7 Require Import Base.Prelude Gen.Consts Cbor.Item Spec.CrcSpec Spec.Rfc9171.
-From BP7 Require Import Model.Types Model.Encode Model.Decode Model.Wf Model.Hex Proofs.CodecProofs Proofs.SpecProofs Proofs.TableProofs.
+From BP7 Require Import Model.Types Model.Encode Model.Decode Model.Wf Model.Hex Proofs.CodecProofs Proofs.SpecProofs Proofs.TieBase Proofs.TieCrcBytes.
 
 (* crc_on_wire code items stored bytes:
      code 0: stored = CrcNo and bytes = ser (Arr items)
